@@ -250,8 +250,34 @@ func checkC13(c *Ctx) {
 		for _, n := range names {
 			have[n] = true
 		}
+		// a direct peek taken only when the nesting depth is 0 needs no protocol: nothing is open there,
+		// and the end of the text after a complete top-level token is a legitimate end
+		atDepthZero := func(g *ssa.Function, site ssa.CallInstruction) bool {
+			return guardedBy(site.Block(), func(cond ssa.Value) (bool, bool) {
+				bo, ok := cond.(*ssa.BinOp)
+				if !ok || (bo.Op != token.EQL && bo.Op != token.NEQ) {
+					return false, false
+				}
+				p, isParam := bo.X.(*ssa.Parameter)
+				k, isConst := constIntOf(bo.Y)
+				if !isParam || !isConst || k != 0 || p.Name() != "depth" {
+					return false, false
+				}
+				return true, bo.Op == token.EQL
+			})
+		}
 		for _, g := range c.zygoFuncs() {
 			if g.Parent() == nil && isMethodOf(g, parserT) && len(callsOf(g, peek)) > 0 && !have[fnName(g)] {
+				open := 0
+				for _, site := range callsOf(g, peek) {
+					if !atDepthZero(g, site) {
+						open++
+					}
+				}
+				if open == 0 {
+					c.ok("C13-YIELD", fnName(g), "direct look-ahead only at depth 0", g.Pos(), "every direct peek of the lexer in this routine is taken only when the nesting depth is 0, where the end of the text is a legitimate end")
+					continue
+				}
 				names = append(names, fnName(g))
 				have[fnName(g)] = true
 			}
@@ -333,6 +359,85 @@ func checkC13(c *Ctx) {
 			})
 			c.check(found, "C13-YIELD", name, "more-input request at end of input", f.Pos(),
 				"on TokenEnd: stores ErrMoreInputNeeded, yields, peeks again", "unfinished construct does not ask for more input: "+why)
+		}
+	}
+
+	// ---- C13-OPERAND: a nested expression is read only by a routine that runs the more-input protocol
+	// itself. ParseExpression answers a dry token stream with the end marker; a caller that has not
+	// first waited for a token (the prefix operators % ^ ~ ~@ used to) wraps that marker as if it
+	// were the operand: "(a %" + "b c)" read as (a (quote End) b c).
+	if pe := c.mustFn("C13-OPERAND", "Parser.ParseExpression"); pe != nil && peek != nil && yieldF != nil {
+		nCall := 0
+		for _, g := range c.zygoFuncs() {
+			sites := callsOf(g, pe)
+			if len(sites) == 0 {
+				continue
+			}
+			top := topFn(g)
+			for _, site := range sites {
+				nCall++
+				// the caller peeks the lexer itself and yields, or tests the result against the end marker (the top-level loop)
+				waits := len(callsOf(g, peek)) > 0 && callsYield(g, yieldF)
+				testsEnd := false
+				if v, ok := site.(ssa.Value); ok {
+					testsEnd = resultComparedWithGlobal(v, "SexpEnd")
+				}
+				c.check(waits || testsEnd, "C13-OPERAND", fnName(g), "nested expression read after waiting for a token", site.Pos(),
+					"the caller of ParseExpression waits for a token with the more-input protocol (or tests the result for the end marker)",
+					"ParseExpression is called for a nested expression by a routine that neither waits for a token nor tests the result for the end-of-input marker: when the operand has not arrived yet (the text is delivered in pieces, or ends without a delimiter) the end marker is wrapped as the operand and the real operand becomes a sibling")
+			}
+			_ = top
+		}
+		if nCall < 5 {
+			c.undecided("C13-OPERAND", "Parser.ParseExpression", "callers", pe.Pos(), fmt.Sprintf("only %d calls of ParseExpression found", nCall))
+		}
+	}
+
+	// ---- C13-TOPEND: the look-ahead that asks for more input (ParserPeekNextToken) is taken by the expression
+	// parser only where something is open: in the arm of an opening token, or at a nesting depth above 0. After a
+	// complete top-level token nothing is open; asking for more input there withholds the last token of the text.
+	if pe, ypeek := c.mustFn("C13-TOPEND", "Parser.ParseExpression"), c.mustFn("C13-TOPEND", "Parser.ParserPeekNextToken"); pe != nil && ypeek != nil && typF != nil {
+		openers := map[int64]string{}
+		for _, nm := range []string{"TokenLParen", "TokenLSquare", "TokenLCurly", "TokenBeginBacktickString", "TokenBeginBlockComment"} {
+			if k, ok := c.Zygo.Types.Scope().Lookup(nm).(*types.Const); ok {
+				if v, ok := constInt64(k); ok {
+					openers[v] = nm
+				}
+			}
+		}
+		nSites := 0
+		for _, site := range callsOf(pe, ypeek) {
+			nSites++
+			blk := site.Block()
+			inOpener := guardedBy(blk, func(cond ssa.Value) (bool, bool) {
+				bo, ok := cond.(*ssa.BinOp)
+				if !ok || bo.Op != token.EQL {
+					return false, false
+				}
+				k, ok := constIntOf(bo.Y)
+				if !ok || openers[k] == "" || !valueIsField(bo.X, typF) {
+					return false, false
+				}
+				return true, true
+			})
+			nested := guardedBy(blk, func(cond ssa.Value) (bool, bool) {
+				bo, ok := cond.(*ssa.BinOp)
+				if !ok || (bo.Op != token.EQL && bo.Op != token.NEQ) {
+					return false, false
+				}
+				p, isParam := bo.X.(*ssa.Parameter)
+				k, isConst := constIntOf(bo.Y)
+				if !isParam || !isConst || k != 0 || p.Name() != "depth" {
+					return false, false
+				}
+				return true, bo.Op == token.NEQ
+			})
+			c.check(inOpener || nested, "C13-TOPEND", "Parser.ParseExpression", "more input requested only where something is open", site.Pos(),
+				"the yielding look-ahead is taken in the arm of an opening token or at a nesting depth above 0",
+				"the expression parser asks for more input after a complete token at nesting depth 0: a text that ends there (a top-level + or -, (f)-1 without a newline) is reported as unfinished and its last token is withheld")
+		}
+		if nSites < 5 {
+			c.undecided("C13-TOPEND", "Parser.ParseExpression", "yielding look-ahead sites", pe.Pos(), fmt.Sprintf("only %d yielding look-ahead sites found in ParseExpression (7 confirmed by reading)", nSites))
 		}
 	}
 
@@ -1031,4 +1136,84 @@ func (c *Ctx) checkCommentAutomaton(rule string) {
 	c.check(okStar, rule, "Lexer.LexNextRune", "asterisk after asterisk keeps waiting for the slash", fd.Pos(),
 		"inside a block comment a run of asterisks stays in the `asterisk seen` state",
 		"after an asterisk inside a block comment another asterisk sends the lexer back to the plain comment state: `**/` does not close the comment and the rest of the text is swallowed")
+}
+
+func callsYield(g *ssa.Function, yieldF *types.Var) bool {
+	found := false
+	eachInstr(g, func(b *ssa.BasicBlock, i int, in ssa.Instruction) {
+		if call, ok := in.(*ssa.Call); ok {
+			if _, ok := loadOfField(call.Call.Value, yieldF); ok {
+				found = true
+			}
+		}
+	})
+	return found
+}
+
+// resultComparedWithGlobal: the first result of the call (a tuple) is compared with the named package-level variable.
+func resultComparedWithGlobal(call ssa.Value, global string) bool {
+	var vals []ssa.Value
+	if _, isTuple := call.Type().(*types.Tuple); isTuple {
+		for _, r := range *call.Referrers() {
+			if ex, ok := r.(*ssa.Extract); ok && ex.Index == 0 {
+				vals = append(vals, ex)
+			}
+		}
+	} else {
+		vals = append(vals, call)
+	}
+	isGlobal := func(v ssa.Value) bool {
+		for d := 0; d < 4; d++ {
+			switch x := v.(type) {
+			case *ssa.MakeInterface:
+				v = x.X
+			case *ssa.ChangeInterface:
+				v = x.X
+			case *ssa.UnOp:
+				if g, ok := x.X.(*ssa.Global); ok && g.Name() == global {
+					return true
+				}
+				return false
+			default:
+				return false
+			}
+		}
+		return false
+	}
+	seen := map[ssa.Value]bool{}
+	var walk func(v ssa.Value, depth int) bool
+	walk = func(v ssa.Value, depth int) bool {
+		if seen[v] || depth > 4 || v.Referrers() == nil {
+			return false
+		}
+		seen[v] = true
+		for _, r := range *v.Referrers() {
+			switch x := r.(type) {
+			case *ssa.BinOp:
+				if (x.Op == token.EQL || x.Op == token.NEQ) && (isGlobal(x.X) || isGlobal(x.Y)) {
+					return true
+				}
+			case *ssa.Phi:
+				if walk(x, depth+1) {
+					return true
+				}
+			case *ssa.Store:
+				// spilled to a local: its loads
+				if al, ok := x.Addr.(*ssa.Alloc); ok {
+					for _, r2 := range *al.Referrers() {
+						if ld, ok := r2.(*ssa.UnOp); ok && ld.Op == token.MUL && walk(ld, depth+1) {
+							return true
+						}
+					}
+				}
+			}
+		}
+		return false
+	}
+	for _, v := range vals {
+		if walk(v, 0) {
+			return true
+		}
+	}
+	return false
 }
